@@ -253,7 +253,7 @@ def convV1 (sp : FnSpec) (dt : DT) : DV :=
   match sp.k with
   | .datetime => .datetime sp.sub { dt with time := attachTz sp.tz dt.time }
   | .date => .date sp.sub dt.date
-  | .time => .time sp.sub { dt.time with tz := sp.tz }
+  | .time => .time sp.sub (attachTz sp.tz dt.time)      -- `.timetz()`: an offset parsed by `%z` is kept (repair of the dropped offset)
 
 /-- the `for p in patterns: try: return … except Exception: pass` chain -/
 def tryPatterns (std : PatStd) (sp : FnSpec) (s : S) : List S → Option DV
